@@ -159,11 +159,11 @@ def model_compare(ctx, bt, batch, footprint_fields=None, footprint_ops=None, cor
         pre, op = st["pre"], st["op"]
         if trunc:
             # no look-ahead: the model sees the supplied data only up to the clock of the step
-            t = op["d"] if op["op"] in ("update", "btday") else pre["root"]["now"]
+            t = op["d"] if op["op"] in ("update", "btday", "paperday") else pre["root"]["now"]
             if t is None:
                 continue
             pre = truncate_data(pre, t)
-            if op["op"] == "btday" and op.get("w2") is not None:
+            if op["op"] in ("btday", "paperday") and op.get("w2") is not None:
                 op = dict(op)
                 op["w2"] = truncate_data(op["w2"], t)
             ctx.count("truncated-steps")
